@@ -9,6 +9,7 @@ import Driver.Watermark
 import Driver.Breaker
 import Driver.Queue
 import Driver.Grammar
+import Driver.Store
 
 open Driver
 
@@ -18,6 +19,7 @@ structure DState where
   wm : Driver.Watermark.St := {}
   breaker : Option SierraModel.Breaker.Sys := none
   c12 : Driver.Queue.St := {}
+  store : Driver.Store.St := {}
 
 def step (st : DState) (toks : List String) : DState × String :=
   match toks with
@@ -29,6 +31,7 @@ def step (st : DState) (toks : List String) : DState × String :=
   | "c26" :: rest => let (b, r) := Breaker.c26 st.breaker rest; ({ st with breaker := b }, r)
   | "c12" :: rest => let (q, r) := Queue.c12 st.c12 rest; ({ st with c12 := q }, r)
   | "c21" :: rest => (st, Grammar.c21 rest)
+  | "st" :: rest => let (s, r) := Store.step st.store rest; ({ st with store := s }, r)
   | "wm" :: rest => let (w, r) := Watermark.wm st.wm rest; ({ st with wm := w }, r)
   | "sl" :: rest => let (s, r) := Seglog.step st.sl rest; ({ st with sl := s }, r)
   | _ => (st, "bad-op")
